@@ -4,7 +4,7 @@
 FIX_COMMITS = [
     "02a02b1", "c32131a", "324bd77", "876de36", "e2492f3", "e522aa8", "02b45be", "2a6ea78", "7fbeea5", "b9a009d",
     "caa585b", "a0bae72", "49c1276", "a9a220e", "3b6199f", "d3ca28d", "e11250e", "3ac0c81", "b80de6a", "773425f",
-    "a468da5", "3e9bf5d", "abf25e6", "2859361", "650ac10", "2493939",
+    "a468da5", "3e9bf5d", "abf25e6", "2859361", "650ac10", "2493939", "3e31ca3",
 ]
 
 NOT_APPLICABLE = {
@@ -56,6 +56,8 @@ SAVESIB = ("misc", "save_siblings", {})
 FULLIT = ("emit", "full_iter", {})
 MAPUNC = ("emit", "mapper_uncond", {})
 ITCFG = ("iters", "config_immutable", {})
+NEST = ("component", "nest_track", {})
+RECD = ("component", "rec_dispatch", {})
 SCOPED = ("misc", "scoped_pending", {})
 DELP = ("misc", "delete_pairing", {})
 REIDX = [("reindex", "refers_exh", {"kind": k}) for k in ("func", "global", "memory")]
@@ -67,12 +69,12 @@ def EM(kinds, names=False):
 
 
 PROPS = {
-    "C01": P([FULLIT, TT_WE, TT_AUX, CONSTEXPR, ("emit", "section_order", {}), ("nopanic", "payload_exh_rule", {}), SCRATCH] + REIDX,
+    "C01": P([("fields", "struct_copy_pairing", {}), RECD, FULLIT, TT_WE, TT_AUX, CONSTEXPR, ("emit", "section_order", {}), ("nopanic", "payload_exh_rule", {}), SCRATCH] + REIDX,
              "necessary-condition lint: every value type of the stated profile survives the reader→writer tables; constant-expression operators are re-emitted as themselves; sections are emitted in binary-format order; every payload kind has a handler",
              "R-TYPE-TABLE (wasm_encoder writer), aux tables, R-CONSTEXPR-TABLE, R-SECTION-ORDER, R-PAYLOAD-EXH, R-LOOP-SCRATCH, R-REFERS-EXH (the updaters run on every encode, with identity maps on an unmodified module: each must write a looked-up index back to the operand it was looked up for).",
              "that the whole output validates for every module.",
              "abstract interpretation of match tables over a finite type domain; call-order check"),
-    "C02": P([FULLIT, TT_WE, TT_AUX, CONSTEXPR, ("fields", "types_cover", {}), ("fields", "name_pairing", {}), ("fields", "struct_copy_pairing", {}), ("fields", "custom_sections", {}), IMPORD, SCRATCH, TFLOW] + REIDX,
+    "C02": P([RECD, FULLIT, TT_WE, TT_AUX, CONSTEXPR, ("fields", "types_cover", {}), ("fields", "name_pairing", {}), ("fields", "struct_copy_pairing", {}), ("fields", "custom_sections", {}), IMPORD, SCRATCH, TFLOW] + REIDX,
              "necessary conditions of content preservation: no type/const table changes a value, no Types field is dropped by the encoder, every name subsection and custom section is re-emitted from where it was stored, struct→struct copies pair like-named fields",
              "R-TYPE-TABLE, R-CONSTEXPR-TABLE, R-FIELDS-COVER(Types), R-NAME-PAIRING, R-COPY-PAIRING, R-CUSTOM-SECTIONS, R-IMPORT-ORDINAL, R-LOOP-SCRATCH, R-REFERS-EXH, R-TYPE-FIELD-FLOW.",
              "equality of decoded forms on every input.",
@@ -128,7 +130,7 @@ PROPS = {
              "R-BUILDER-FLOW, R-COUNTER-INV, R-SWAP, R-TYPE-TABLE, R-LOCALS (declared locals), R-LOCAL-COUNT-GUARD.",
              "decoded equality.",
              "path enumeration + name-aligned flow lint"),
-    "C13": P([TFLOW, ("fields", "types_cover", {}), ("misc", "type_dedup", {}), ("hashorder", "hashorder", {}), ("mutators", "swap_flows", {}), TT_WE],
+    "C13": P([RECD, TFLOW, ("fields", "types_cover", {}), ("misc", "type_dedup", {}), ("hashorder", "hashorder", {}), ("mutators", "swap_flows", {}), TT_WE],
              "necessary: Hash/Eq/encode agree on Types fields, the type store has one writer and dedups before inserting, the dedup winner does not depend on hash order",
              "R-TYPE-FIELD-FLOW, R-FIELDS-COVER(Types), R-TYPE-DEDUP, R-HASHORDER, R-SWAP, R-TYPE-TABLE.",
              "index stability with explicit rec groups (iso-recursive identity).",
@@ -193,10 +195,10 @@ PROPS = {
              "R-SIBLING(instrumenter), R-COUPLED-STATE, R-WHOMAYCALL.",
              "visit-sequence equality over all components and skip maps.",
              "sibling effect summaries"),
-    "C27": P([FULLIT, ("component", "variant_method_tables", {}), ("component", "section_pairing", {}), SCRATCH],
+    "C27": P([NEST, RECD, FULLIT, ("component", "variant_method_tables", {}), ("component", "section_pairing", {}), SCRATCH],
              "necessary: each defined-type / canonical-function variant is re-encoded through its own builder method; each section tag replays the vector it recorded with its own cursor",
              "R-VARIANT-METHOD (2 + 1 tables, 67 arms), R-SECTION-PAIRING (12 tags), R-LOOP-SCRATCH.",
-             "correctness of the nesting-skip stack for depth ≥ 2 (push-down discipline over runtime payload sequences).",
+             "equality of the decoded component for every input (R-NEST-TRACK decides the push/pop discipline of the nesting stack structurally: one level opened per nested-section payload on every path, one closed per End).",
              "variant→method correspondence + tag↔vector pairing"),
     "C28": P([FULLIT, ("fields", "custom_sections", {})],
              "necessary: one owner of the custom-section list, order-preserving API, name/data copied to name/data, forward emission",
@@ -208,7 +210,7 @@ PROPS = {
              "R-EMIT-MAPPED(names), R-NAME-DISPATCH, R-NAME-PAIRING, R-IMPORT-ORDINAL.",
              "name equality over histories.",
              "sink provenance"),
-    "C30": P([CONSTEXPR, TT_BOTH, ("misc", "additions", {}), ("mutators", "swap_flows", {}), ("mutators", "who_may_call", {}), FRESH],
+    "C30": P([MAPARGS, ("fields", "struct_copy_pairing", {}), CONSTEXPR, TT_BOTH, ("misc", "additions", {}), ("mutators", "swap_flows", {}), ("mutators", "who_may_call", {}), FRESH],
              "bit-exact constant expressions, exact types, parameter→field flows of the module-level adders",
              "R-CONSTEXPR-TABLE, R-TYPE-TABLE incl. the wasmparser writer used by add_global, R-ADD-FLOW, R-SWAP, R-WHOMAYCALL, R-FRESH-ID.",
              "decoded equality of whole modules.",
